@@ -37,6 +37,8 @@ type RecProto struct {
 	// InAdd, when set, runs after the inner AddPipe accepted the pipe and
 	// before AddPipe returns to the core (still inside pipe.lock).
 	InAdd func(name string)
+	// Early records the arrival before calling the wrapped protocol (and the verdict after it).
+	Early bool
 	mu    sync.Mutex
 	// Ctxs are the protocol level contexts opened through the socket, in order.
 	Ctxs []protocol.Context
@@ -58,6 +60,14 @@ func (r *RecProto) AddPipe(p protocol.Pipe) error {
 	if r.Refuse != nil && r.Refuse(name) {
 		r.Rec.Emit("padd", "p", name, "r", "refuse", "id", int(p.ID()))
 		return protocol.ErrProtoState
+	}
+	if r.Early {
+		// The protocol's AddPipe may start goroutines that reach the transport
+		// before it returns: the arrival is recorded first, the verdict after.
+		r.Rec.Emit("padd", "p", name, "r", "?", "id", int(p.ID()))
+		err := r.Protocol.AddPipe(p)
+		r.Rec.Emit("paddres", "p", name, "r", err)
+		return err
 	}
 	err := r.Protocol.AddPipe(p)
 	if err != nil {
